@@ -7,11 +7,12 @@ open Coba.C08
 
 def parseItem (j : Json) : Except String ItemSpec := do
   pure { id := ← nat (← field j "id"), outs := ← natList (← field j "outs"),
-         err := ← opt nat (fieldD j "err" Json.null) }
+         err := ← opt nat (fieldD j "err" Json.null), perr := ← opt nat (fieldD j "perr" Json.null) }
 
 def parseCfg (j : Json) : Except String Cfg := do
   pure { n := ← nat (← field j "n"), m := ← nat (← field j "m"),
-         items := ← (← arr (← field j "items")).mapM parseItem }
+         items := ← (← arr (← field j "items")).mapM parseItem,
+         timeouts := (match (fieldD j "timeouts" (Json.bool false)).getBool? with | .ok b => b | .error _ => false) }
 
 def parseAction (j : Json) : Except String Action := do
   let name ← str (← field j "a")
@@ -37,6 +38,12 @@ def wJson : W → Json
   | .exited p e => obj [("exited", Json.bool p), ("err", ofOpt ofNat e)]
   | .dead => Json.str "dead"
 
+def woutcomeJson : WOutcome → Json
+  | .ok o => obj [("kind", Json.str "ok"), ("outs", ofList ofNat o)]
+  | .raised e o => obj [("kind", Json.str "raised"), ("err", ofNat e), ("outs", ofList ofNat o)]
+  | .exit e o => obj [("kind", Json.str "exit"), ("err", ofNat e), ("outs", ofList ofNat o)]
+  | .closed o => obj [("kind", Json.str "closed"), ("outs", ofList ofNat o)]
+
 def outcomeJson : Outcome → Json
   | .ok o => obj [("kind", Json.str "ok"), ("outs", ofList ofNat o)]
   | .raised e o => obj [("kind", Json.str "raised"), ("err", ofNat e), ("outs", ofList ofNat o)]
@@ -47,7 +54,7 @@ def stateJson (c : Cfg) (s : State) : Json :=
        ("inq", ofList elemJson s.inq), ("outq", ofList (fun o => match o with | some v => ofInt v | none => ofInt (-1)) s.outq),
        ("ws", ofList wJson s.ws), ("nprocs", ofNat s.nprocs), ("excs", ofList ofNat s.excs),
        ("event", Json.bool s.event), ("recv", ofList ofNat s.recv), ("main", Json.str (phaseName s.main)),
-       ("abandoned", Json.bool s.abandoned), ("mu", ofNat (mu c s))]
+       ("abandoned", Json.bool s.abandoned), ("lexc", ofOpt ofNat s.lexc), ("mu", ofNat (mu c s))]
 
 /-- the value an action is about to move, as the harness observes it (−1 = pill) -/
 def observed (s : State) : Action → Option Int
@@ -68,6 +75,13 @@ structure Res where
 def replay (c : Cfg) : Nat → State → List Json → Bool → Except String Res
   | i, s, [], ok => pure ⟨i, none, s, ok⟩
   | i, s, j :: js, ok => do
+    let isTo : Bool := (match j.getObjVal? "a" with | .ok (Json.str "putTimeout") => true | _ => false)
+    if isTo then
+      if !enabledT c s .putTimeout then pure ⟨i, some (i, "not-enabled"), s, ok⟩
+      else
+        let s' := stepT c s .putTimeout
+        replay c (i + 1) s' js (ok && mu c s' < mu c s)
+    else
     let a ← parseAction j
     if !enabled c s a then
       pure ⟨i, some (i, "not-enabled"), s, ok⟩
@@ -97,7 +111,13 @@ def handle (req : Json) : Except String Json := do
                ("spec_outs", ofList ofNat (allOuts c)), ("spec_errs", ofList ofNat (allErrs c))])
   | "trace" =>
     let tr ← arr (← field req "trace")
-    let r ← replay c 0 (init c) tr true
+    -- error ids the CobaMultiprocessor wrapper turns into CobaExit (none for the filter's own errors in the fixed code)
+    let boot : List Nat ← (match req.getObjVal? "boot" with | .ok j => natList j | .error _ => pure [])
+    -- what the previous call on the same object left behind (histories); `startCall` re-assigns all of it
+    let o : Obj ← (match req.getObjVal? "obj" with
+      | .ok j => do pure { nprocs := ← nat (← field j "nprocs"), excs := ← natList (← field j "excs") }
+      | .error _ => pure { nprocs := 0, excs := [] })
+    let r ← replay c 0 (startCall o c) tr true
     let s := r.st
     let fin := s.main == .done
     -- (C): the theorems' conclusions evaluated on the final state
@@ -109,6 +129,8 @@ def handle (req : Json) : Except String Json := do
     pure (obj [("steps", ofNat r.steps),
                ("fail", match r.fail with | some (i, why) => obj [("at", ofNat i), ("why", Json.str why)] | none => Json.null),
                ("state", stateJson c s), ("outcome", outcomeJson (outcome s)), ("done", Json.bool fin),
+               ("wrapped", woutcomeJson (wrapOutcome (fun e => boot.contains e) (outcome s))),
+               ("wrapper_input", ofList ofNat (wrapperInput (c.items.map (·.id)))),
                ("mu_decreasing", Json.bool r.muOk), ("mu0", ofNat (mu c (init c))),
                ("spec_outs", ofList ofNat (allOuts c)), ("spec_errs", ofList ofNat (allErrs c)),
                ("spec_holds", Json.bool specHolds)])
